@@ -376,7 +376,8 @@ func (p *Prog) consumerCheck(fn *ssa.Function, c *ssa.Call, errV, stV ssa.Value,
 		idx     int
 		alias   map[ssa.Value]bool
 		on      map[*ssa.BasicBlock]bool
-		ctxLive bool // the path passed a test establishing ctx.Err() == nil
+		ctxLive bool     // the path passed a test establishing ctx.Err() == nil
+		ors     [][]Fact // disjunctions known on the path: a false `a && b` is ¬a ∨ ¬b
 	}
 	budget := 4000
 	var walk func(f frame)
@@ -493,22 +494,121 @@ func (p *Prog) consumerCheck(fn *ssa.Function, c *ssa.Call, errV, stV ssa.Value,
 						}
 					}
 				}
+				// the condition may be a materialised a && b / a || b, or a named
+				// test: what each edge implies, fact by fact
+				aliases := f.alias
+				refutes := func(f Fact) bool {
+					bo, ok := f.Cond.(*ssa.BinOp)
+					if !ok || (bo.Op != token.EQL && bo.Op != token.NEQ) {
+						if call, ok := f.Cond.(*ssa.Call); ok && stV != nil && kind == "status" && !f.Truth {
+							if p.isFailedMethod(call.Call.StaticCallee()) && len(call.Call.Args) > 0 && sameValue(call.Call.Args[0], stV) {
+								return true // !st.failed()
+							}
+						}
+						return false
+					}
+					eq := (bo.Op == token.EQL) == f.Truth
+					for _, pr := range [][2]ssa.Value{{bo.X, bo.Y}, {bo.Y, bo.X}} {
+						if aliases[stripConv(pr[0])] {
+							if k, ok := pr[1].(*ssa.Const); ok && k.Value == nil && eq {
+								return true // err == nil
+							}
+						}
+						if stV != nil && kind != "" && sameValue(pr[0], stV) {
+							if k, ok := constInt(pr[1]); ok {
+								if (k == bad && !eq) || (k != bad && eq) {
+									return true // the status is not the bad one
+								}
+							}
+						}
+					}
+					return false
+				}
+				if _, isPhi := cond.(*ssa.Phi); isPhi || func() bool { _, c := cond.(*ssa.Call); return c }() {
+					for si := 0; si < 2 && si < len(b.Succs); si++ {
+						for _, ef := range appendFact(nil, Fact{Cond: cond, Truth: si == 0}, 0)[1:] {
+							if refutes(ef) {
+								if si == 0 {
+									t = false
+								} else {
+									e = false
+								}
+							}
+						}
+					}
+				}
+				// disjunctions: a materialised `a && b` that is false (or `a || b`
+				// that is true) leaves ¬a ∨ ¬b (a ∨ b) for the rest of the path;
+				// a later test that settles one disjunct settles the other
+				sameCond := func(a, b ssa.Value) bool {
+					x, ok1 := a.(*ssa.BinOp)
+					y, ok2 := b.(*ssa.BinOp)
+					if ok1 && ok2 {
+						return x.Op == y.Op && sameValue(x.X, y.X) && sameValue(x.Y, y.Y)
+					}
+					return a == b
+				}
+				edgeOrs := [2][][]Fact{f.ors, f.ors}
+				for si := 0; si < 2; si++ {
+					truth := si == 0
+					var next [][]Fact
+					dead := false
+					for _, dis := range f.ors {
+						var keep []Fact
+						for _, d := range dis {
+							if sameCond(d.Cond, cond) && d.Truth != truth {
+								continue // this disjunct is contradicted on the edge
+							}
+							keep = append(keep, d)
+						}
+						switch {
+						case len(keep) == 0:
+							dead = true
+						case len(keep) == 1 && len(keep) < len(dis):
+							if refutes(keep[0]) {
+								dead = true
+							}
+						}
+						next = append(next, keep)
+					}
+					if ph, ok := cond.(*ssa.Phi); ok {
+						if ops, isOr, ok := shortCircuit(ph, 0); ok && isOr == truth {
+							var dis []Fact
+							for _, o := range ops {
+								dis = append(dis, Fact{Cond: o, Truth: truth})
+							}
+							next = append(next, dis)
+						}
+					}
+					edgeOrs[si] = next
+					if dead {
+						if si == 0 {
+							t = false
+						} else {
+							e = false
+						}
+					}
+				}
 				succs := b.Succs
 				for si, s := range succs {
 					if (si == 0 && !t) || (si == 1 && !e) {
 						continue
 					}
+					ors := edgeOrs[0]
+					if si == 1 {
+						ors = edgeOrs[1]
+					}
 					live := f.ctxLive || si == liveEdge
 					curLive = f.ctxLive
 					p.enter(f.alias, f.on, b, s, fn, c, report, func(na map[ssa.Value]bool, non map[*ssa.BasicBlock]bool) {
-						walk(frame{s, 0, na, non, live})
+						walk(frame{s, 0, na, non, live, ors})
 					})
 				}
 				return
 			case *ssa.Jump:
 				s := b.Succs[0]
 				p.enter(f.alias, f.on, b, s, fn, c, report, func(na map[ssa.Value]bool, non map[*ssa.BasicBlock]bool) {
-					walk(frame{s, 0, na, non, f.ctxLive})
+					walk(frame{s, 0, na, non, f.ctxLive, f.ors})
 				})
 				return
 			}
@@ -518,7 +618,7 @@ func (p *Prog) consumerCheck(fn *ssa.Function, c *ssa.Call, errV, stV ssa.Value,
 	if errV != nil {
 		alias[errV] = true
 	}
-	start := frame{c.Block(), instrIndex(c.Block(), c) + 1, alias, map[*ssa.BasicBlock]bool{c.Block(): true}, false}
+	start := frame{c.Block(), instrIndex(c.Block(), c) + 1, alias, map[*ssa.BasicBlock]bool{c.Block(): true}, false, nil}
 	walk(start)
 	if len(problems) == 0 {
 		onlyWhenCtxLive = false
